@@ -30,6 +30,9 @@ THEOREMS = {"Artap.Props.C20": [
     "C20_remove_hits_equal_only", "C20_remove_fails_iff_absent", "C20_set_dedupe_exact", "C20_merged_is_equal",
     "C20_depends_on_vectors_only", "C20_generate_discards_only_repeats", "C20_generate_accepts_no_repeat"]}
 AXIOMS_OK = []
+# second tie to the code (tools/py2coq.py + coq/theories/GenProofs): the source of Individual.__eq__ / __hash__ is translated on every run and proved equal to Model/IndividualEq.v ind_eq / ihash
+from harness.core import translated_specs
+TRANSLATED = translated_specs("IndividualEqGen")
 TRUSTED = [
     "Coq 8.16.1 kernel; vm_compute for model evaluation",
     "theorems are closed under the global context (abstract coordinate type, comparison, |a-b| and tolerance)",
